@@ -29,10 +29,14 @@ JVM = {"JAVA_TOOL_OPTIONS": "-Xss16m"}
 REG_OPS = ["add", "subtract", "remainder", "fmod", "maximum", "minimum", "hypot", "less", "greater_equal", "equal", "not_equal", "multiply", "divide", "floor_divide", "divmod_r", "dot", "sqrt", "square"]
 DT_OPS = ["add", "subtract", "remainder", "fmod", "maximum", "minimum", "copysign", "less", "greater_equal", "equal", "not_equal", "negative"]
 DTS = ["f8", "c16", "c8", "f4", "i8", "i4"]
+# operands of different shapes: every operation whose transcription converts one operand into the other's unit, plus the
+# multiplicative ones (which operand is converted, and into which unit the result is labelled, must not depend on the shapes)
+BCAST_OPS = ["add", "subtract", "remainder", "fmod", "maximum", "minimum", "fmax", "fmin", "hypot", "copysign", "less", "less_equal", "greater", "greater_equal", "equal", "not_equal", "floor_divide", "divmod_r", "multiply", "divide"]
+INT_OPS = ["multiply", "dot"]
 MAG_OPS = ["add", "subtract", "remainder", "fmod", "maximum", "minimum", "fmax", "fmin", "hypot", "copysign", "less", "less_equal", "greater", "greater_equal", "equal", "not_equal", "floor_divide", "divmod_r"]
 
 
-def _cfg(ck, name, maxlen, exportlen, leaves, yshapes, valsets, reexall, ops=None, pairs=(), xshapes=("v",), classpairs=False, regpairs=(11,), reexreg=False, dtx=("f8",), dty=("f8",)):
+def _cfg(ck, name, maxlen, exportlen, leaves, yshapes, valsets, reexall, ops=None, pairs=(), xshapes=("v",), classpairs=False, regpairs=(11,), reexreg=False, dtx=("f8",), dty=("f8",), mixed=False, resbound=8192):
     ops = ops or ALL_OPS
     txt = "CONSTANTS\n"
     txt += f"  MaxLen = {maxlen}\n  ExportLen = {exportlen}\n"
@@ -48,6 +52,7 @@ def _cfg(ck, name, maxlen, exportlen, leaves, yshapes, valsets, reexall, ops=Non
     txt += f"  ReexReg = {'TRUE' if reexreg else 'FALSE'}\n"
     txt += "  DTX = {" + ", ".join(f'"{d}"' for d in dtx) + "}\n"
     txt += "  DTY = {" + ", ".join(f'"{d}"' for d in dty) + "}\n"
+    txt += f"  MixedShapes = {'TRUE' if mixed else 'FALSE'}\n  ResBound = {resbound}\n"
     txt += "INIT Init\nNEXT Next\nINVARIANT Export\nCHECK_DEADLOCK FALSE\n"
     open(ck.spec + f"/{name}.cfg", "w").write(txt)
     return name
@@ -208,10 +213,11 @@ def _replay_validate(ck, cases, label, st):
 def run(ck):
     ck.level = "model_checking"
     ck.assumptions += [
-        "alphabet: 31 atomic units (power-of-two units in a custom registry incl. 2^-60, 2^-55, 2^70, 2^75 and a compound velocity atom: exact float arithmetic; km cm ft min percent degree arcmin radian + a custom 15-degree unit; lat/lon with their zero points (trig only); magnitude classes fm pm fs ps Zm Ym and eV keV MeV carried relative to eV), 46 leaf units incl. compounds and half-integer powers; two leaves (length-2 array; length-2 array or scalar); values from 3 small sets",
+        "alphabet: 31 atomic units (power-of-two units in a custom registry incl. 2^-60, 2^-55, 2^70, 2^75 and a compound velocity atom: exact float arithmetic; km cm ft min percent degree arcmin radian + a custom 15-degree unit; lat/lon with their zero points (trig only); magnitude classes fm pm fs ps Zm Ym and eV keV MeV carried relative to eV), 48 leaf units incl. compounds, half-integer powers and reciprocal lengths; two leaves, each a length-2 array, a 0-d quantity or a one-element 1-d array; values from 7 small sets",
         "TLC 32-bit integers: scales are exponent vectors over the primes 2,3,5,127; value arithmetic is checked, steps whose exact evaluation would leave the range are not generated (trace side: undecided, counted)",
         "floats are matched to the rationals the specification expects: exactly on power-of-two units, rtol 1e-12 (+1e-12 of the operand magnitude for sums, differences, dot, reductions, trig and the remainders - modulus-aware) otherwise; discontinuous operations (floor_divide, mod, fmod, divmod, comparisons, sign) are judged only on exact operands or away from the jump",
         "powers with general rational exponents (powerx) are judged in exponent space: base numbers that factor over 2,3,5,127, floats of the result (numbers, units.base_value, SI magnitudes) matched to the exponent vectors the specification expects within rtol 1e-12 (base_value 1e-11); exponents with denominators up to 10^7; the float handed to the library is n/d rounded to double",
+        "integer data: a step whose RAW ufunc result leaves the range of the narrowest integer type involved is outside the claim (NumPy's wrap-around, Arith!IntFits); int32/int64 ranges are beyond the checked 32-bit arithmetic (the coefficient branch is exercised with int8/uint8/int16); in-place targets narrower than 4 bytes are run as the operator; numbers of a re-expressed leaf that do not fit the integer type are built as float64",
         "known findings are matched on (clause, operation, method, operand-unit relation, agreement with the transcription; for powerx also the class of the exponent: denominator <= 10^6 or beyond)",
     ]
     st = {"events": 0, "distinct_events": 0, "outside": 0, "undecided": {}, "raised": 0, "model_fail_classes": set(), "steps": 0, "by_op": {}, "table": None}
@@ -267,9 +273,15 @@ def run(ck):
         # dtype dimension: complex (non-zero imaginary parts), float32 and integer leaves in either operand position, on
         # the power-of-two units (exact in every dtype)
         ("len1d", "length 1, leaf dtypes (complex, float32, integers)", dict(maxlen=1, exportlen=1, leaves=[1, 2, 4], yshapes=["v"], valsets=ck.q([4], [2, 4]), reexall=False, ops=DT_OPS, pairs=[(1, 2), (2, 1), (1, 1)], dtx=DTS, dty=DTS), False),
+        # shape dimension: a 0-d quantity / a 1-d array holding one element / a 1-d array, in either operand position
+        # (pairs of different shapes only: equal shapes are the instances above)
+        ("len1b", "length 1, operands of different shapes (0-d, one-element 1-d, 1-d)", dict(maxlen=1, exportlen=1, leaves=ck.q([1, 2, 12, 13], [1, 2, 4, 12, 13, 16]), yshapes=["s", "o", "v"], xshapes=["s", "o", "v"], valsets=[1], reexall=False, ops=BCAST_OPS, pairs=ck.q([(1, 2), (2, 1), (12, 13)], [(1, 2), (2, 1), (12, 13), (13, 12), (2, 2), (4, 4), (16, 16)]), mixed=True), False),
+        # integer dtypes (narrow and wide) where the units cancel into a whole-number coefficient: the raw product fits the
+        # type, coefficient x product does not (value sets 6, 7); reciprocal-length leaves 47, 48
+        ("len1i", "length 1, integer dtypes with a whole-number cancellation coefficient", dict(maxlen=1, exportlen=1, leaves=[1, 2, 47, 48], yshapes=["v"], xshapes=["v"], valsets=[6, 7], reexall=False, ops=INT_OPS, pairs=[(2, 47), (47, 2), (2, 48), (48, 2), (1, 47), (2, 1)], dtx=ck.q(["i1", "i2", "u1", "i8"], ["i1", "i2", "u1", "u2", "i4", "i8"]), dty=ck.q(["i1", "i2", "u1", "i8"], ["i1", "i2", "u1", "u2", "i4", "i8"]), resbound=1048576), False),
         ("len1x", "length 1, powers with general exponents (exponent space)", dict(maxlen=1, exportlen=1, leaves=XLEAVES, yshapes=ck.q(["v"], ["v", "s"]), valsets=[5], reexall=ck.q(False, True), ops=["powerx"], pairs=XPAIRS, xshapes=ck.q(["v"], ["v", "s"])), False),
         # the base of such a power is itself a product / quotient / root (cancelled and compound units)
-        ("len2x", "length 2, general power of a product / quotient / root", dict(maxlen=2, exportlen=2, leaves=[1, 2, 3, 12, 13, 15], yshapes=["v"], valsets=[5], reexall=False, ops=["multiply", "divide", "sqrt", "square", "powerx"], pairs=ck.q([(2, 3), (12, 13), (12, 15)], [(2, 3), (3, 2), (12, 13), (13, 12), (12, 15), (2, 12), (1, 13)])), False),
+        ("len2x", "length 2, general power of a product / quotient / root", dict(maxlen=2, exportlen=2, leaves=[1, 2, 3, 12, 13, 15], yshapes=["v"], valsets=[5], reexall=False, ops=["multiply", "divide", "sqrt", "square", "powerx"], pairs=ck.q([(2, 3), (12, 13)], [(2, 3), (3, 2), (12, 13), (13, 12), (12, 15), (2, 12), (1, 13)])), False),
         # length 2 (exhaustive chains) on a smaller alphabet: compound and cancelled units feed the second step
         ("len2", "programs of length 2 (exhaustive)", dict(maxlen=2, exportlen=2, leaves=leaves2, yshapes=["v"], valsets=[1], reexall=False, ops=ops2, pairs=ck.q([(1, 2)], [(1, 2), (2, 1), (2, 6), (1, 1)])), False),
         # beyond the bound: simulated longer programs
@@ -285,7 +297,8 @@ def run(ck):
             return ck.tlc("MC_C04", env=JVM, cfg="MC_C04_" + key, workers=1, simulate=n_sim, depth=depth + 1, label=label, timeout=3000)
         return ck.tlc("MC_C04", env=JVM, cfg="MC_C04_" + key, workers=per, label=label, coverage=False, timeout=6000)
 
-    with cf.ThreadPoolExecutor(max_workers=len(inst)) as ex:
+    # (at most max(4, NCPU) JVMs at a time: every instance is its own TLC process with its own heap)
+    with cf.ThreadPoolExecutor(max_workers=min(len(inst), max(4, NCPU))) as ex:
         results = list(ex.map(gen, inst))
     st["table"] = results[0].by_tag("TABLE")[0]
     batches = []
@@ -299,7 +312,7 @@ def run(ck):
             for c in cases:
                 fam.setdefault(json.dumps([c["cfg"], c["steps"][:-1]], sort_keys=True), []).append(c)
             cases = [c for k in sorted(fam) for c in rnd.sample(fam[k], min(40, len(fam[k])))]
-        minimum = {"len1": 500, "len1m": 200, "len1o": 20, "len1p": 50, "len1r": 100, "len1d": 100, "len1x": 100, "len2x": 20}.get(key, 0)
+        minimum = {"len1": 500, "len1m": 200, "len1o": 20, "len1p": 50, "len1r": 100, "len1d": 100, "len1x": 100, "len2x": 20, "len1b": 100, "len1i": 50}.get(key, 0)
         if len(cases) < minimum:
             raise MachineryFailure(f"too few cases exported by instance {key}: {len(cases)}")
         batches.append((key, cases))
